@@ -231,6 +231,16 @@ def run(ctx) -> None:
     )
     root_spelling(ctx, RSP, P)
 
+    # ---------------------------------------------------------------- (b'') a field the stopping thread clears is read once
+    RCF = ctx.rule(
+        "C07/cleared-field-read-once",
+        "a field of a library thread that its stop hook (run by the *stopping* thread) sets to None without a lock the thread body "
+        "holds at the use must not be dereferenced as `self.<field>.x` in the thread body: the body takes one snapshot into a local and "
+        "tests and uses that (otherwise the stop lands between the None-test and the use: AttributeError, unhandled, in the library thread)",
+        floor=1,
+    )
+    cleared_field_read_once(ctx, RCF, P)
+
     # ---------------------------------------------------------------- (c) swallow is local
     n = 0
     for p in bp:
@@ -248,6 +258,62 @@ def run(ctx) -> None:
         "fallible-operation table: KeyError from [] / del / pop(k) on _wd_for_path, _path_for_wd, _moved_from_events; OSError from add-watch (via _raise_error); the snapshot constructor",
         "os.walk swallows listing errors (onerror=None)",
     ]
+
+
+STOP_HOOKS = ("on_thread_stop", "stop", "close")
+
+
+def cleared_field_read_once(ctx, RCF, P) -> None:
+    from ..pse import walk_with_locks
+    from ..threads import lock_aliases
+
+    n = 0
+    for cname in sorted(P.subclasses("BaseThread")):
+        ci = P.cls(cname)
+        if ci.module.relpath.endswith(("fsevents.py", "fsevents2.py", "read_directory_changes.py", "kqueue.py", "winapi.py")):
+            continue
+        al = lock_aliases(P, cname)
+        canon = lambda t, al=al: al.get(t, t)  # noqa: E731
+        cfg = ThreadCfg(P, follow_attrs=False, no_inline=set(ci.methods) | {"join", "start", "close", "stop"})
+        cleared: dict[str, list] = {}
+        for hook in STOP_HOOKS:
+            hf = ci.methods.get(hook)
+            if hf is None:
+                continue
+            for e, held, p in walk_with_locks(Enumerator(cfg).run(hf, selfcls=cname), canon):
+                if e.kind == "store" and e.extra.get("recv") == "self" and e.extra.get("value") == "None":
+                    cleared.setdefault(e.extra["attr"], []).append((hook, frozenset(k for k, v in held.items() if v > 0)))
+        for fld, writes in sorted(cleared.items()):
+            n += 1
+            wlocks = frozenset.intersection(*[l for _, l in writes]) if writes else frozenset()
+            bad = []
+            for m, mf in ci.methods.items():
+                if m in STOP_HOOKS or m in ("__init__", "on_thread_start"):
+                    continue
+                derefs = [x for x in ast.walk(mf.node) if isinstance(x, ast.Attribute) and isinstance(x.value, ast.Attribute) and ast.unparse(x.value) == f"self.{fld}"]
+                if not derefs:
+                    continue
+                # locks held at the dereference (engine locksets: `with` and acquire/release forms alike)
+                held_at = {}
+                for e, held, p in walk_with_locks(Enumerator(cfg).run(mf, selfcls=cname), canon):
+                    if f"self.{fld}." in (e.raw or ""):
+                        hl = frozenset(k for k, v in held.items() if v > 0)
+                        held_at[getattr(e.node, "lineno", 0)] = held_at.get(getattr(e.node, "lineno", 0), hl) & hl
+                for x in derefs:
+                    hl = held_at.get(x.lineno, frozenset())
+                    if not (wlocks & hl):
+                        bad.append((m, x))
+            ctx.check(
+                not bad,
+                RCF,
+                f"{cname}.{fld} (cleared by {'/'.join(sorted({h for h, _ in writes}))})",
+                f"`self.{fld}` is set to None by {sorted({h for h, _ in writes})} (called by the stopping thread, holding {sorted(wlocks) or 'no lock'}) and dereferenced directly in "
+                + ", ".join(f"{m}() line {x.lineno}: `{ast.unparse(x)}`" for m, x in bad)
+                + ": a stop between the None-test and the use raises AttributeError in the library thread (it dies with an unhandled error while the observer keeps running)",
+                f"{ci.module.relpath}:{bad[0][1].lineno if bad else ci.node.lineno}",
+            )
+    if n == 0:
+        raise AnalysisError("no library thread clears a field in its stop hook (anchor vanished: InotifyEmitter.on_thread_stop)")
 
 
 CODECS = {"os.fsencode", "os.fsdecode"}
@@ -379,6 +445,7 @@ VARIANTS = [
     dict(name="B reader ignores root IGNORED", expect="fire", rule="C07/root-deletion", edits=[(IB, "                    if inotify_event.src_path == self._inotify.path:\n                        # Watch was removed explicitly (inotify_rm_watch(2)) or automatically (file\n                        # was deleted, or filesystem was unmounted), stop watching for events\n                        deleted_self = True\n                    continue", "                    continue")]),
     dict(name="B moved_from lookup without membership test", expect="fire", rule="C07/thread-body-exception-flow", edits=[(IC, "        if destination_event.cookie in self._moved_from_events:\n            return self._moved_from_events[destination_event.cookie].src_path\n\n        return None", "        return self._moved_from_events[destination_event.cookie].src_path")]),
     dict(name="B read_events returns None after close", expect="fire", rule="C07/thread-body-exception-flow", edits=[(IC, "                    if self._closed:\n                        self._close_resources()\n                        return []", "                    if self._closed:\n                        self._close_resources()\n                        return None")]),
+    dict(name="B emitter re-reads the buffer field after its None-test (pre-fix)", expect="fire", rule="C07/cleared-field-read-once", edits=[(IN, "            inotify = self._inotify\n            if inotify is None:\n", "            inotify = self._inotify\n            if self._inotify is None:\n"), (IN, "            event = inotify.read_event()", "            event = self._inotify.read_event()")]),
     dict(name="B reader normalises its root", expect="fire", rule="C07/root-spelling-preserved", edits=[(IC, "        self._path = path\n", "        self._path = path = os.path.normpath(path)\n")]),
     dict(name="B emitter resolves the root before watching", expect="fire", rule="C07/root-spelling-preserved", edits=[(IN, "        path = os.fsencode(self.watch.path)\n", "        path = os.path.realpath(os.fsencode(self.watch.path))\n")]),
     dict(name="B root test against the absolute path", expect="fire", rule="C07/root-spelling-preserved", edits=[(IN, "elif event.is_delete_self and src_path == self.watch.path:", "elif event.is_delete_self and src_path == os.path.abspath(self.watch.path):")]),
